@@ -319,6 +319,9 @@ CATALOGUE = [
     F("catchall-benign-context", "{u} {u} {s0} {u}", ["md5", "j9", "j9bad"], quote=False),
     F("catchall-quoted", "{u} \"{s0}\";", ["md5", "j9"], quote=False),
     F("catchall-line-start", "{s0}", ["md5", "j9"], quote=False),
+    # a quoted hash on a keyword-less line, followed by MORE quoted text on the same line
+    F("catchall-quoted-then-quoted-text", "{u} \"{s0}\" description \"uplink to core\"", ["md5", "j9"], quote=False),
+    F("catchall-quoted-between-quoted-text", "note \"see ticket\" {u} \"{s0}\"; comment \"x\" \"y\"", ["md5", "j9"], quote=False),
     # --- forms named in the property's rationale / found leaking during reconnaissance
     F("failover-key-hex", "failover key hex {s0}", ["hex"]),
     F("key-ascii-text", "key ascii-text \"{s0}\"", quote=False),
